@@ -90,11 +90,13 @@ func VerifC01Relay() {
 		vf.Assert(s.method == reqs[i].method, "origin-sees-method")
 		vf.Assert(s.url == "http://example.com"+reqs[i].path, "origin-sees-path-and-query")
 		vf.Assert(len(s.header["X-A"]) == 1 && s.header["X-A"][0] == reqs[i].hval, "origin-sees-header-value")
+		vf.Assert(len(s.header["X-M"]) == 2 && s.header["X-M"][0] == "m1" && s.header["X-M"][1] == "m2", "origin-sees-every-value-of-a-repeated-header-in-order")
 		vf.Assert(bytes.Equal(s.body, reqs[i].body), "origin-sees-identical-body")
 		g := got[i]
 		vf.Assert(g.ok, "client-response-complete")
 		vf.Assert(g.status == ress[i].status, "client-sees-status")
 		vf.Assert(len(g.hval) == 1 && g.hval[0] == ress[i].hval, "client-sees-header-value")
+		vf.Assert(len(g.header["X-N"]) == 2 && g.header["X-N"][0] == "n1" && g.header["X-N"][1] == "n2", "client-sees-every-value-of-a-repeated-header-in-order")
 		wantBody := ress[i].body
 		if reqs[i].method == "HEAD" || ress[i].status == 204 {
 			wantBody = nil
